@@ -12,3 +12,7 @@ Definition CT (cn : string) (issuer : nat) (expired client_usage : bool) : cert 
 
 Definition tmismatches (l : list tcase) : list N :=
   map tcs_id (filter (fun c => negb (Bool.eqb (admitted (pinned 1) (tcs_cred c)) (tcs_served c))) l).
+
+(* a server configured with authority ca (an authority no caller's certificate comes from = no authority configured) *)
+Definition tmismatches_ca (ca : nat) (l : list tcase) : list N :=
+  map tcs_id (filter (fun c => negb (Bool.eqb (admitted (pinned ca) (tcs_cred c)) (tcs_served c))) l).
